@@ -12,703 +12,635 @@ Definition show_fres (r : fres) : string :=
   end.
 Definition check (rs : list rune) : string := digest (show_fres (format_res rs)).
 Definition full (rs : list rune) : string := show_fres (format_res rs).
-Eval vm_compute in ("<<<M1745>>>" ++ check (runes_of_ascii "packet A {
-    @rightPad('0')
-    repeat i8i8 {
-        zchar[007] packetx,
-        metadata `" ++ [28040; 24687; 31867; 22411]%N ++ runes_of_ascii "`,
-        repeat float64 T,
-    },
-    @tag(0)
-    Z9_ {
-        int @lengthOf(tag) `line1
-        line2`,
-        repeat i8i8 {
-            zchar[00] stringy,
-            repeat f32a {
-                match i64_ as string_ {
-                    [255, 0123456789, ""{,}""] : x_y_z,
-                    """ ++ [233]%N ++ runes_of_ascii "t" ++ [233]%N ++ runes_of_ascii """ : A,
-                    ""`tick`"" : len,
-                },
-            },
-            //
-            repeat u8x {
-                u16 Z9_ @calculatedFrom(""" ++ [128512]%N ++ runes_of_ascii """) `line1
-                line2`,
-                f32 matchKey,
-            },// " ++ [27880; 37322]%N ++ runes_of_ascii "
-            float64 u8x `
-            `,
-        },//
-    },// `tick` ""quote"" 'q'
-    a1 {
-        repeat zchar[007] Foo `two words`,
-        f32a @calculatedFrom(""" ++ [28040; 24687]%N ++ runes_of_ascii """),
-        int64 i64_ @calculatedFrom(""`tick`""),
-    },
-    @lengthOf(Header)
-    f32 stringy @calculatedFrom(""x y"") `say ""hi""`,
-    Foo,
-    float64 BodyLength @calculatedFrom(""packet""),
-    uint32 int,
+Eval vm_compute in ("<<<M198>>>" ++ check (runes_of_ascii "root packet int {
+// @lengthOf(
+// " ++ [27880; 37322]%N ++ runes_of_ascii "
+@calculatedFrom( ""packet"")match repeatCount as asx {// packet A { u8 x, }
+65535:int ,
+"""":
+    packetx
+, [ 1, ""it's"", 007 , 3,
+    ""a\\"" , 65535 ] : o,
+[ 7 , 1 ]:
+    len [ ""abc""	,""" ++ [28040; 24687]%N ++ runes_of_ascii """ ] : u
+,} ,// packet A { u8 x, }
+@rightPad ( ' ' ) // " ++ [27880; 37322]%N ++ runes_of_ascii "
+len
+    body `{ , }` , }packet repeatCount { string
+trueish
+,@tag(
+0 )	repeat
+tag/// triple
+`{ , }` , // `tick` ""quote"" 'q'
+@tag(255 // @lengthOf(
+) match packetx as
+string_
+    {
+10 :roots, }//
+,
+@leftPad
+(
+'\x00'	)
+    @tag( 7 ) repeat i8 // packet A { u8 x, }
+rootA
+/// triple
+// " ++ [128512]%N ++ runes_of_ascii " emoji
+`it's` , uint8x tag`a\` ,
+char[] Z9_ @calculatedFrom( //x
+""" ++ [233]%N ++ runes_of_ascii "t" ++ [233]%N ++ runes_of_ascii """
+    )
+, repeat float32
+trueish	, @leftPad ( /// triple
+'\x00'	)	i64_
+    @calculatedFrom( ""x y""
+    ) //
+, repeat f32 Packet ,  }
+    packet u
+    // c
+    {int64 pack@lengthOf(metadata ) ,	repeat
+    char[//	t
+0123456789 ] int
+    ``
+    , @lengthOf(
+    Header  )@calculatedFrom(""`tick`""
+)	float
+    trueish , @calculatedFrom(	""`tick`""
+    // a // b
+    ) stringy ,// " ++ [128512]%N ++ runes_of_ascii " emoji
+repeat Logon  `it's`  ,
+int32  Z9_ @calculatedFrom(
+""\n""), match// c
+u8x as falsey {
+255 : f32a ,
+00:packetx
+, } ,
+zchar[	0 ] roots , @tag( 00) Logon {
+    i64_
+@lengthOf( MetaDataX //
+) ``
+    , repeat body
+MetaDataX `it's`, x { string rootA ``
+    // a // b
+    , repeat options1 f32a , }//
+, Pad
+, // `tick` ""quote"" 'q'
+} , @calculatedFrom( ""1""
+    // packet A { u8 x, }
+    )@lengthOf(T ) char[
+7 ]	pack	`{ , }`	, } MetaData u {
+} /// triple")).
+Eval vm_compute in ("<<<M384>>>" ++ check (runes_of_ascii "options {
+	StringPrefixLenType = u16;
+	ArrayPrefixLenType = u16;
 }
 
-packet string_ {
-    @tag(4294967296)
-    repeat u `two words`,
-    repeat zchar[0] BodyLength,
-    @tag(255)
-    /// triple
-    int `line1
-    line2`,
-    uint8x `it's`,
-    @tag(65535)
-    int8 metadata `" ++ [233]%N ++ runes_of_ascii "`,/// triple
-    match options1 as float {
-        3 : f32a,
-        """ ++ [28040; 24687]%N ++ runes_of_ascii """ : charz,
-    },
-    match uint8x as string_ {
-        ""CRC32"" : x,
-    },
-    uint8 packetx `crlf
-    line`,
-    @leftPad()
-    zchar[0] Foo `say ""hi""`,
+packet SampleBinary {
+	uint16 MsgType `" ++ [28040; 24687; 31867; 22411]%N ++ runes_of_ascii "`,
+	u16 BodyLenght @lengthOf(Body) `" ++ [28040; 24687; 20307; 38271; 24230]%N ++ runes_of_ascii "`,
+	match MsgType as Body {
+		1 : Logon,
+		2 : Logout,
+		3 : Heartbeat,
+		4 : RiskControlRequest,
+		5 : RiskControlResponse,
+	},
+		@calculatedFrom(""CRC32"")
+	u32 Ckecksum `" ++ [26657; 39564; 21644]%N ++ runes_of_ascii "`,
+}
+
+packet Logon {
+	 @leftPad('0')
+	char[10] UserName `" ++ [29992; 25143; 21517]%N ++ runes_of_ascii "`,
+	string Password `" ++ [23494; 30721]%N ++ runes_of_ascii "`,
+	uint64 ClientId `" ++ [23458; 25143; 31471]%N ++ runes_of_ascii "ID`,
+	u16 HeartbeatInterval `" ++ [24515; 36339; 38388; 38548]%N ++ runes_of_ascii "`,
+}
+
+packet Logout {
+	  @rightPad('0')
+	char[10] UserName `" ++ [29992; 25143; 21517]%N ++ runes_of_ascii "`,
+	uint64 ClientId `" ++ [23458; 25143; 31471]%N ++ runes_of_ascii "ID`,
+}
+
+packet Heartbeat {
+}
+
+packet RiskControlRequest {
+	string UniqueOrderId `" ++ [21807; 19968; 35746; 21333; 21495]%N ++ runes_of_ascii "`,
+	char[16] ClOrdID `" ++ [23458; 25143; 35746; 21333; 21495]%N ++ runes_of_ascii "`,
+	char[3] MarketID `" ++ [24066; 22330]%N ++ runes_of_ascii "id`,
+	char[12] SecurityID `" ++ [35777; 21048; 20195; 30721]%N ++ runes_of_ascii "`,
+	char Side `" ++ [20080; 21334; 26041; 21521]%N ++ runes_of_ascii "`,
+	char OrderType `" ++ [35746; 21333; 31867; 22411]%N ++ runes_of_ascii "`,
+	u64 Price `" ++ [20215; 26684]%N ++ runes_of_ascii "`,
+	u32 Qty `" ++ [25968; 37327]%N ++ runes_of_ascii "`,
+	repeat string ExtraInfo `" ++ [38468; 21152; 20449; 24687]%N ++ runes_of_ascii "`,
+	repeat SubOrder {
+			char[16] ClOrdID `" ++ [23376; 35746; 21333; 21495]%N ++ runes_of_ascii "`,
+			u64 Price `" ++ [23376; 35746; 21333; 20215; 26684]%N ++ runes_of_ascii "`,
+			u32 Qty `" ++ [23376; 35746; 21333; 25968; 37327]%N ++ runes_of_ascii "`,
+		},
+}
+
+packet RiskControlResponse {
+	string UniqueOrderId `" ++ [21807; 19968; 35746; 21333; 21495]%N ++ runes_of_ascii "`,
+	i32 Status `" ++ [29366; 24577]%N ++ runes_of_ascii "`,
+	string Msg `" ++ [32467; 26524; 20449; 24687]%N ++ runes_of_ascii "`,
+	repeat Detail,
+}
+
+packet Detail {
+	string RuleName `" ++ [35268; 21017; 21517; 31216]%N ++ runes_of_ascii "`,
+	u16 Code `" ++ [21407; 22240; 20195; 30721]%N ++ runes_of_ascii "`,
 }")).
-Eval vm_compute in ("<<<M143>>>" ++ check (runes_of_ascii "
-packet  lengthOf
-{  @tag( 65535
-/// triple
-//	t
-)@tag( //	t
-3 ) @tag( 0123456789) options1 @calculatedFrom(""abc""
-    ) , @rightPad
-( '0')falsey @lengthOf( a1  )
-    ,
-    @lengthOf(Pad
-)body @calculatedFrom( // " ++ [128512]%N ++ runes_of_ascii " emoji
-""packet"" ) // trailing space 
-,
-} packet int
-{ string Foo @calculatedFrom(""CRC32"" ) ,}
-root
-// trailing space 
-//	t
-packet uint8x
-    {}
-root packet len { x_y_z
-_x ,
-    BodyLength rootA
-/// triple
+Eval vm_compute in ("<<<M316>>>" ++ check (runes_of_ascii "// `tick` ""quote"" 'q'
+packet crc { @tag(0 ) //x
+chars , i8i8
+@lengthOf( packetx ), repeat
+f32a
+    {
+match packetx as a1{
+    ""x y""
+:
 //
-,
-match f32a as Logon
-    {[ ""a\""b"" ,
-""" ++ [28040; 24687]%N ++ runes_of_ascii """
-    ,
-    """ ++ [128512]%N ++ runes_of_ascii """
-,65535, 00 ,4294967296
-    ,
-"""" ,""abc"" ]
-    : roots,[
-    00 ] :
-A ,  [
-    65535
+// `tick` ""quote"" 'q'
+Packet, } ,}
+, @leftPad(
+'\x00' )
+uint8 int ,
+match float as a1 {
+    // `tick` ""quote"" 'q'
+    [4294967296
+    ]
+:// " ++ [27880; 37322]%N ++ runes_of_ascii "
+Packet
+    , } //
+, repeat zchar[ 007 ] zchar`tab	here`
+    , repeat
+// " ++ [27880; 37322]%N ++ runes_of_ascii "
 // a // b
-// trailing space 
+x
+    , }	packet
+string_
+    // c
+    { char[
+0123456789] a1
+, @calculatedFrom( ""a\\"" ) @tag( 42)
+@leftPad
+('\x00' ) options1
+    @calculatedFrom( """ ++ [28040; 24687]%N ++ runes_of_ascii """
+)`it's`	, repeat
+rootA// packet A { u8 x, }
+{
+    //
+    match Logon as Packet { [10 ,	255 , 0,
+007 ,
+""CRC32""
+, ""abc"" ] : len , """ ++ [28040; 24687]%N ++ runes_of_ascii """:	a1	, } , match leftPad as Header { 007:  As
+, 255: repeatCount , /// triple
+"""" // packet A { u8 x, }
+: matchKey //
+, [ 255 ,
+    3,	""abc"" , """", ""\n"" , 1
+, """"// " ++ [27880; 37322]%N ++ runes_of_ascii "
 ,
-// trailing space 
-// " ++ [128512]%N ++ runes_of_ascii " emoji
-65535
-, """" ]
+42//x
+] : pack ,
+}
+, }
+// @lengthOf(
+// `tick` ""quote"" 'q'
+, int
+{int64 chars , }// @lengthOf(
+, } 	 ")).
+Eval vm_compute in ("<<<M379>>>" ++ check (runes_of_ascii "root
+    packet i64_ { trueish ,
+@calculatedFrom(""abc"") @tag( 7 )
+    // c
+    int16
+    asx
+, @calculatedFrom( ""a\\"" ) float32 crc
+@lengthOf(
+Foo ) ,	@tag( // `tick` ""quote"" 'q'
+42 // c
+) zchar[
 // c
 // packet A { u8 x, }
-:
-// " ++ [128512]%N ++ runes_of_ascii " emoji
-// trailing space 
-pack ,
-    }
-    // trailing space 
-    ,repeat Pad `say ""hi""` ,
-    /// triple
-    a1 calculatedFrom
-    ,
-@lengthOf( stringy )char[] As @calculatedFrom( ""\" ++ [233]%N ++ runes_of_ascii """ )
-, zchar[ 0123456789 ] Z9_
-    @lengthOf( repeatCount ) // packet A { u8 x, }
-`a\`
-, repeat // `tick` ""quote"" 'q'
-string lengthOf , //x
-u8 falsey @calculatedFrom(
-""a\\"" )  ,@calculatedFrom( ""it's"") string calculatedFrom @lengthOf( MetaDataX ) ,}")).
-Eval vm_compute in ("<<<M1681>>>" ++ check (runes_of_ascii "
-packet
-crc 
-{ @lengthOf(
-stringy // a // b
-  )@leftPad
-( '0'
-)
-	@calculatedFrom(
-""packet""
-
-    )
-repeat char[
-    // c
-3 ]
-i64_  // a // b
-  	,match
-
-    options1 as
-o {
-	255
-
-: msg_type ,
-
-    ""\n""
-:	MetaDataX  ,	42	: msg_type	""" ++ [128512]%N ++ runes_of_ascii """ :lengthOf
-
-    , ""// no comment""	:
-
-    falsey
-
-, 
-} 
-	    /// triple
-
-	// trailing space 
-    , @leftPad 
-(	) @lengthOf(
-A  ) @calculatedFrom(  ""x y""	)
-	uint32 	 // a // b
-		charz
-`doc` ,  len,@calculatedFrom(""// no comment""
-
-)	match
-_x
-    //x
-	  as	i64_{
-65535
-
-:
-        // @lengthOf(
-
-	u8x
-,}
-,	char[]a1  // @lengthOf(
-, Foo	{ 
-u8x  { 
-char[]
-    Logon `// not a comment`  , }
-    ,
-    match
-metadata as u128  { 	 // trailing space 
-    	42
-	:
-    u8x
-    , 
-65535
-:f32a
-
-} //x
-  ,
-asx // " ++ [128512]%N ++ runes_of_ascii " emoji
-		@lengthOf( matchKey
-
-)	,
-    },  roots@calculatedFrom(	// packet A { u8 x, }
-  	""a\""b""	) ,zchar[
-
-    7
-] int ,
-
-    repeat
-	pack
-
-trueish
-
-,	}
-")).
-Eval vm_compute in ("<<<M188>>>" ++ check (runes_of_ascii "// packet A { u8 x, }
-root
-    packet
-    leftPad { @calculatedFrom(
-    //x
-    ""`tick`"" )	@rightPad( )
-    // " ++ [128512]%N ++ runes_of_ascii " emoji
-    string_
-// `tick` ""quote"" 'q'
-// a // b
-@lengthOf(	tag
-    ) `a\` ,i64 T
-    `" ++ [233]%N ++ runes_of_ascii "`,//	t
-}
-packet
-Pad// @lengthOf(
-{ @lengthOf(	float ) char[] x@calculatedFrom(
-    ""a\""b"")
-    , // trailing space 
+7 ] asx @lengthOf( calculatedFrom) `// not a comment` , //
+repeat zchar[ 1]// a // b
+As ,	chars `two words` , @calculatedFrom( ""1"" )
 @tag(
-    0// " ++ [128512]%N ++ runes_of_ascii " emoji
-) // " ++ [27880; 37322]%N ++ runes_of_ascii "
-repeatCount// packet A { u8 x, }
+    // `tick` ""quote"" 'q'
+    0123456789 ) @leftPad ('0')
+    repeat
+    char[] BodyLength `tab	here`, } MetaData u128 // packet A { u8 x, }
+{
+u16 i64_
 ,
-repeat rootA{
-_x
-    ,zchar[3 ]roots
-    /// triple
-    `crlf
-line` ,
-}
-,
-/// triple
-// a // b
-match
-    metadata as BodyLength
-    { [
-    // c
-    10 , 10 , ""a\""b"", """"	, ""\n""
-,  ""a\\"" , 4294967296]  :
-    u
-, }
-, repeat	i64_ Packet `" ++ [28040; 24687; 31867; 22411]%N ++ runes_of_ascii "`
-,@tag( // packet A { u8 x, }
-65535)
-    char[] float`it's`
-, char[7 ]
-    x @calculatedFrom( ""{,}"" ),
-    }MetaData leftPad// a // b
-{ body rootA
+    float32 asx//
+`two words` ,//
+i64
+leftPad, zchar[ 00 // `tick` ""quote"" 'q'
+] _x
+    , //
+} MetaData chars
+    //
+    {Foo crc
+`say ""hi""` , uint8 u`two words` , // " ++ [128512]%N ++ runes_of_ascii " emoji
+f32
+pack
 `crlf
-line`
-, int64
-msg_type
-`doc`
-    , // @lengthOf(
-}
-")).
-Eval vm_compute in ("<<<M1353>>>" ++ check (runes_of_ascii "  options
-{ 
-StringPrefixLenType = u8 ; ArrayPrefixLenType= 
-u32
-; 
-FixedStringPadFromLeft
-
-=true ; FixedStringPadChar
-=' '
-
-; }packet 
-Leg 
-{}
-	packet  Heartbeat  {
-    zchar[ 6 ]	msgKind
-
-,
-@rightPad  ('0')
-char[ 3
-    ]	Qty , 
-zchar[
-    9 ]	Side2
-
-    , i8 Acct
-
-    ,
-}
-packet Logout
-	{
-
-int8  x,
-
-} packet	Order
-
-{char[]
-
-Acct
-	,
-	zchar[ 8 ] count
-	,
-
-    u32 OrderId , uint8  lastPx ,  u16
-clOrdID, zchar[7
-    ]	Note,
-    }root
-    packet
-    Reject
-
-{
-	@leftPad (  ' ')
-
-    char[
-
-    8
-
-    ]
-Side2
-
-    ,
-
-i8
-	clOrdID
-    ,repeat
-f32 
-x
-,	u32
-
-    lastPx ,  match lastPx 
-as
-
-    Body
-    {
-[
-
-30 
-,147 ]
-    : Heartbeat,134 : Leg , 183
-	:  Logout ,
-
-40: Order ,
-    } , 
-u16
-
-    Ref
-    @calculatedFrom(	""CRC32"") 
-,
-	}")).
-Eval vm_compute in ("<<<M344>>>" ++ check (runes_of_ascii "options // a // b
-{	}
-    packet i8i8 { @tag(
-3 ) x
-@calculatedFrom(
-""it's""	) , @lengthOf( f32a ) match
-rootA
-as uint8x // @lengthOf(
-{ 0 : string_ 42 : Packet } , @leftPad
-(
-    '\x00'
-) i64_ packetx `u8 x,` ,
-    @calculatedFrom(""x y"" ) matchKey {len  ,
-    }  ,
-@lengthOf(  matchKey
-)
-    @calculatedFrom(// `tick` ""quote"" 'q'
-""abc"" ) @lengthOf( x_y_z )
-    /// triple
-    repeat metadata `line1
-line2` ,lengthOf repeatCount , /// triple
-int32
-// " ++ [27880; 37322]%N ++ runes_of_ascii "
-//	t
-roots @calculatedFrom( ""`tick`"")
-`" ++ [233]%N ++ runes_of_ascii "` , zchar[
-1	]	Packet	@calculatedFrom(	""// no comment"" ) ,} packet
-    options1
-{ @lengthOf(
-    uint8x ) A @calculatedFrom( ""it's""
-    )
-`doc`, } root packet crc
-{char[	65535	]chars
-,}
-")).
-Eval vm_compute in ("<<<M206>>>" ++ check (runes_of_ascii "//x
-root
-    // " ++ [128512]%N ++ runes_of_ascii " emoji
-    packet
-// `tick` ""quote"" 'q'
-/// triple
-float{options1 A
-,@tag(
-42 )
-    u8x{ tag //x
-@calculatedFrom(	""\" ++ [233]%N ++ runes_of_ascii """) // packet A { u8 x, }
-`tab	here` ,
-    }
-    , int16 asx ,
-    @lengthOf( o
-    )
-@rightPad( ) repeat int
-/// triple
-/// triple
-Logon,@calculatedFrom(""// no comment"" )  @leftPad('\x00')
-    @rightPad('0'	)	zchar[ 65535 //x
-] o `
-`
-    ,
-    repeat As{ //x
-repeat uint16 o ,repeat
-char[ // trailing space 
-1
-    ]o ,
-u128
-metadata	, repeat char[7	] Header ,
-    } , @tag( 0123456789
-    ) a1 tag
-    , float32 asx ,
-    repeat // packet A { u8 x, }
-len
-``
-    ,}
-")).
-Eval vm_compute in ("<<<M1703>>>" ++ check (runes_of_ascii "
-root
-    packet
-
-    Logon
-{
-
-@calculatedFrom( """" ) @lengthOf( int
-	)
-@tag(
-3
-
-    )
-
-    match
-	_x  as // a // b
-      i64_
-
-    {10 
-:
-asx 
-	    // `tick` ""quote"" 'q'
-    /// triple
-	""" ++ [128512]%N ++ runes_of_ascii """ :
-crc ,
-    [0
-	,
-007	]:
-
-    float ,// trailing space 
-	}
-    ,
-
-    repeat 	 //	t
-uint16
-leftPad, } 
-// " ++ [27880; 37322]%N ++ runes_of_ascii "
-packet	charz	{  }
-MetaData
-
-int
-
-{
-//
-// trailing space 
-      zchar[ 4294967296]  matchKey
-    ,
-	asx rootA
-`doc`
-, 
-Foo string_
-`// not a comment`
-
-,
-
-    char[]u8x  , // `tick` ""quote"" 'q'
-	roots 
-float , }
-")).
-Eval vm_compute in ("<<<M1572>>>" ++ check (runes_of_ascii "packet leftPad {
-    match A as x {
-        ""`tick`"" : MetaDataX,
-        [""it's"", ""\n"", """ ++ [28040; 24687]%N ++ runes_of_ascii """] : string_,
-        0123456789 : o,
-        [""{,}"", ""x y""] : uint8x,
-    },
-    char[3] msg_type @lengthOf(u) `two words`,
-    // c
-    repeat int Foo,
-    @rightPad()
-    @rightPad(' ')
-    Foo charz `{ , }`,
-}
-
-MetaData A {
-    zchar[0] A `{ , }`,
-    float32 a1,
-    char[] pack,
-    string body `" ++ [233]%N ++ runes_of_ascii "`,
-    string chars `doc`,
-    int _x `two words`,
-}
-
-options {
-    Z9_ = uint16;
-}")).
-Eval vm_compute in ("<<<M1895>>>" ++ check (runes_of_ascii "options	// " ++ [27880; 37322]%N ++ runes_of_ascii "
-  {  T	=	zchar[
-42  ]  options1 
+line`, string _x `" ++ [233]%N ++ runes_of_ascii "`  , } packet x_y_z{ } options { calculatedFrom = ""CRC32"" crc
+    = uint16 ; u =
+false
+    Foo
 =
-uint8
-;
-    lengthOf
+    char  } // " ++ [128512]%N ++ runes_of_ascii " emoji")).
+Eval vm_compute in ("<<<M1503>>>" ++ check (runes_of_ascii "
+options
 
+{  StringPrefixLenType	= u8	;
+
+ArrayPrefixLenType
     =
-	// a // b
-  char[  4294967296  ] ;	}
-
-packet	Z9_
-	{repeat
-MetaDataX
-
-    `crlf
-line`
-,
-
-    repeat
-
-string
-x_y_z
-	,
 u32
-x ,  // `tick` ""quote"" 'q'
 
-@tag(
+    ; FixedStringPadFromLeft = true
 
-// " ++ [128512]%N ++ runes_of_ascii " emoji
-	// " ++ [128512]%N ++ runes_of_ascii " emoji
-  00
-)
+;FixedStringPadChar
+	=
 
-repeat	i64 
-Logon 
-, u8x f32a 
-, repeat
-lengthOf
-
-``
-	, repeat
-    stringy
-
-Pad 
-
-    // @lengthOf(
-  	`
-`
-
-    ,
-
-repeat
-string_ chars `// not a comment` ,} ")).
-Eval vm_compute in ("<<<M1921>>>" ++ check (runes_of_ascii "
-MetaData
-
-    Header	{ 
-}
-packet	crc
-
-{
-    match zchar
-as leftPad 	 // `tick` ""quote"" 'q'
-    	{ 7
-
-    :As 0 : 
-Packet
-	,
-	[00  // " ++ [128512]%N ++ runes_of_ascii " emoji
-]	:
-Pad  , 
-  //x
-	//x
-    ""// no comment"":	calculatedFrom
-,
-    3  : string_
-
-    , }
-
-    ,
-	falsey packetx`crlf
-line`
-	,  // " ++ [27880; 37322]%N ++ runes_of_ascii "
-  @tag(42
-    ) repeat
-u64	packetx , 
-@calculatedFrom(	""1""
-
-)
-
-repeat
-
-u16
-	calculatedFrom
-	, 
-}
-
-")).
-Eval vm_compute in ("<<<M118>>>" ++ check (runes_of_ascii "packet As{@leftPad ( )
-    char[ 0	]
-Logon, char[	0
-]
-Z9_@calculatedFrom(	""abc""
-    // c
-    ) ,  @tag( 4294967296 )
-    i64 matchKey @calculatedFrom(
-    ""// no comment""//
-)`two words` ,i16 A
-, }// " ++ [27880; 37322]%N ++ runes_of_ascii "
-packet T { zchar[
-3 ] tag// packet A { u8 x, }
-@lengthOf(
-    chars) , } packet// " ++ [128512]%N ++ runes_of_ascii " emoji
-BodyLength  {calculatedFrom @lengthOf( body )
-`
-`	, } // a // b")).
-Eval vm_compute in ("<<<M1350>>>" ++ check (runes_of_ascii "options {
-
-    LittleEndian=  false
-
+    ' ' 
 ;
-    StringPrefixLenType=  u16	;	} packet
+}	packet
+
+    Leg{
+	} 
+packet 
 Heartbeat
 {
+zchar[ 6] msgKind , 
+@rightPad (
 
-@rightPad(
-'0'
-    )  char[ 7]
-    seqNo 
-,
-
-    uint64 
-Tail , i16
-    Flags,
-
-    u16 
-msgKind,
-}  root
-
-    packet
-
-Reject 
-{	zchar[
-
-    3 
+    '0'
+) char[ 3
 ]
+Qty
+	,  zchar[
 
-tag7 
-,	repeat 
-Heartbeat	,
+9 ]Side2
 
-    repeat string
-    clOrdID
+    ,
+i8 Acct	,
+    }packet
+    Logout{  int8  x, } packet 
+Order	{
+char[]	Acct
+	,
+zchar[
+8
+
+]
+count  ,u32
+	OrderId
+, uint8 lastPx ,u16 
+clOrdID, zchar[7
+
+    ]
+Note 
+, }
+	root
+packet
+Reject
+{ @leftPad
+
+    (  ' '
+	)
+
+char[ 
+8
+	]
+Side2
+
+    , i8 clOrdID ,
+repeat
+
+    f32	x	,  u32
+
+    lastPx,
+	match lastPx
+as 
+Body
+{[ 30
+    ,  147]
+
+:Heartbeat ,	134
+
+    :
+    Leg
 ,
-    } ")).
-Eval vm_compute in ("<<<M1632>>>" ++ check (runes_of_ascii "// top
-options {
-    // c1
-    zchar = true;// c5
-    Pad = char[00]// c10
-    a1 = uint32// c13
-    BodyLength = true;// c17
-}// c18
 
-root packet T {
-    @lengthOf(repeatCount)
-    @tag(1)
-    @calculatedFrom(""a	b"")
-    // c31
-    string stringy @calculatedFrom(""\n"") `u8 x,`,// c38
-}// c39")).
+183: Logout ,
+
+    40  : 
+Order  , 
+}
+
+    ,
+
+    u16
+Ref
+
+    @calculatedFrom(""CRC32"")
+	,
+}
+")).
+Eval vm_compute in ("<<<M1513>>>" ++ check (runes_of_ascii "options {
+    StringPrefixLenType = u8;
+    ArrayPrefixLenType = u32;
+    FixedStringPadFromLeft = true;
+    FixedStringPadChar = ' ';
+}
+
+packet Leg {
+}
+
+packet Heartbeat {
+    zchar[6] msgKind,
+    @rightPad('0')
+    char[3] Qty,
+    zchar[9] Side2,
+    i8 Acct,
+}
+
+packet Logout {
+    int8 x,
+}
+
+packet Order {
+    char[] Acct,
+    zchar[8] count,
+    u32 OrderId,
+    uint8 lastPx,
+    u16 clOrdID,
+    zchar[7] Note,
+}
+
+root packet Reject {
+    @leftPad(' ')
+    char[8] Side2,
+    i8 clOrdID,
+    repeat f32 x,
+    u32 lastPx,
+    match lastPx as Body {
+        [30, 147] : Heartbeat,
+        134 : Leg,
+        183 : Logout,
+        40 : Order,
+    },
+    u16 Ref @calculatedFrom(""CRC32""),
+}")).
+Eval vm_compute in ("<<<M154>>>" ++ check (runes_of_ascii "packet BodyLength
+    // a // b
+    {@rightPad (
+'\x00' )
+u8x/// triple
+,  @tag(  007
+) @calculatedFrom( ""packet""	) repeat  uint8x x_y_z, }
+    MetaData A {
+    // packet A { u8 x, }
+    Z9_ // a // b
+f32a ,
+    zchar[ 255// a // b
+]
+    msg_type`say ""hi""` ,char[ 1	]Logon  `tab	here` ,//
+}
+packet uint8x {  @calculatedFrom(
+""" ++ [28040; 24687]%N ++ runes_of_ascii """ )@tag(// `tick` ""quote"" 'q'
+65535)	u32 int
+@lengthOf( u8x )
+`say ""hi""`
+,	@leftPad ( ' ') stringy //
+{
+    string_ A ,
+    char[ 4294967296
+] i8i8 `" ++ [233]%N ++ runes_of_ascii "`	, char[]  Logon
+,
+string
+x_y_z@lengthOf(	Packet ),
+} , zchar[	4294967296 ]
+int	`{ , }` , }
+// trailing space 
+// " ++ [27880; 37322]%N ++ runes_of_ascii "
+packet u8x
+    { }
+// a // b
+")).
+Eval vm_compute in ("<<<M1609>>>" ++ check (runes_of_ascii "options{
+
+    rootA =
+4294967296
+	;
+falsey	=
+""a\""b""  ;
+
+    As
+=  
+  // @lengthOf(
+  /// triple
+    	"""" ;
+	packetx
+    =""packet"" i8i8
+
+=true
+;	} 	 // `tick` ""quote"" 'q'
+	packet	x	{repeat
+    zchar
+
+rootA ,
+
+char[] 
+pack
+
+    `// not a comment`
+, 
+@tag( 00 )
+    @tag( 
+0123456789) u
+@calculatedFrom(
+	""packet""
+    )
+
+    `u8 x,`
+    ,
+	Header
+
+    {  zchar[ 00 ]
+
+body,
+    a1
+    @calculatedFrom( 	 // " ++ [128512]%N ++ runes_of_ascii " emoji
+    ""it's"" )`" ++ [233]%N ++ runes_of_ascii "`	,
+} 
+,}// " ++ [27880; 37322]%N ++ runes_of_ascii "
+
+MetaData
+
+A // a // b
+{ zchar 	 /// triple
+	matchKey ``
+
+    ,
+
+int64
+	metadata  ,
+char[]
+_x 	 //	t
+      , }
+")).
+Eval vm_compute in ("<<<M40>>>" ++ check (runes_of_ascii "packet stringy
+//	t
+//
+{ repeat T// trailing space 
+{ u64 lengthOf
+`tab	here`  ,
+repeat
+_x { match calculatedFrom as Header { [""" ++ [233]%N ++ runes_of_ascii "t" ++ [233]%N ++ runes_of_ascii """
+    ] : _x  ,// @lengthOf(
+[""packet"" ] :
+MetaDataX , 255 : u128,42 :
+A
+""// no comment"" : body
+    , }
+, repeat crc Foo, charz
+    ,
+}	,zchar[ 1
+    ]i8i8@calculatedFrom( ""x y"" ),  uint8x
+    // " ++ [27880; 37322]%N ++ runes_of_ascii "
+    Pad
+`line1
+line2` , } ,
+@lengthOf( u )
+char[ //x
+4294967296 ]crc, @tag(  007 //x
+)repeatCount ,
+repeat
+    //x
+    char[] Header, @rightPad ( )char[] string_ `a\` ,
+    }
+")).
+Eval vm_compute in ("<<<M264>>>" ++ check (runes_of_ascii "options  {
+    float
+=
+    char[]
+} // packet A { u8 x, }
+root packet
+    Logon
+    { @tag( 1 ) // a // b
+@calculatedFrom( ""packet""
+// a // b
+// " ++ [128512]%N ++ runes_of_ascii " emoji
+)zchar[ 3 ]
+// c
+//x
+Z9_ ,@lengthOf( charz )
+@calculatedFrom( ""1""
+)match
+roots
+as int
+    { ""a	b""
+:MetaDataX , }
+    ,@calculatedFrom( ""a\""b""	)
+    match
+    asx as lengthOf { """ ++ [128512]%N ++ runes_of_ascii """
+    : _x,
+[ 255 ] : BodyLength
+    ,3 :
+    u8x , 0123456789:T} ,
+    len@lengthOf(leftPad )`u8 x,` , } // @lengthOf(")).
+Eval vm_compute in ("<<<M126>>>" ++ check (runes_of_ascii "
+packet T// c
+{ @tag(  00 )repeat char[]	charz
+`
+` , char[0123456789 ]BodyLength
+    @lengthOf( //x
+Z9_
+    )
+    `u8 x,`
+,
+}	MetaData
+crc {
+float64
+int `" ++ [28040; 24687; 31867; 22411]%N ++ runes_of_ascii "`// a // b
+,	As Logon `` , // `tick` ""quote"" 'q'
+uint8 // " ++ [27880; 37322]%N ++ runes_of_ascii "
+u
+, u32  stringy `
+`,
+// a // b
+//	t
+uint64 uint8x , asx
+calculatedFrom	,//x
+} MetaData chars { char[ 1
+    // `tick` ""quote"" 'q'
+    ] //	t
+chars ,
+    } // trailing space ")).
+Eval vm_compute in ("<<<M75>>>" ++ check (runes_of_ascii "packet zchar { @calculatedFrom( ""`tick`""
+) uint32
+    falsey,} MetaData packetx {
+string
+//
+// @lengthOf(
+msg_type `u8 x,`, }packet i8i8 {zchar@lengthOf(
+uint8x
+    ) ,
+    }packet As{ zchar[ 4294967296
+    // " ++ [27880; 37322]%N ++ runes_of_ascii "
+    ] T	@calculatedFrom( ""abc"" ) , @tag(007 )
+    repeat
+    i16
+// " ++ [27880; 37322]%N ++ runes_of_ascii "
+// packet A { u8 x, }
+u8x `say ""hi""`, @lengthOf( u )
+repeat uint16 u128 , }")).
+Eval vm_compute in ("<<<M1326>>>" ++ check (runes_of_ascii "options {
+    LittleEndian = true;
+    StringPrefixLenType = u16;
+    FixedStringPadChar = ' ';
+}
+packet Logon {
+    @leftPad('0') char[10] tag7,
+}
+root packet Ack {
+    int32 Px,
+    uint16 count,
+    string Qty,
+    string OrderId,
+    string Flags,
+    u8 x,
+    match x as Body {
+        [58, 169] : Logon,
+    },
+}
+")).
+Eval vm_compute in ("<<<M32>>>" ++ check (runes_of_ascii "packet int { T/// triple
+{ repeat _x ,	} ,
+    i64_ _x
+    `
+`, @calculatedFrom( ""x y"" )u32 A
+,  match a1 as
+    i8i8 { [ ""1""
+,
+4294967296
+]:
+    a1 ,"""":	a1
+    , 007: a1 , [ ""CRC32"" ] :Header} , int64 As, int8 a1 , //
+char[] float
+`tab	here`/// triple
+,
+repeat zchar[ 1	]u8x,
+} /// triple")).
 Eval vm_compute in ("<<<M1320>>>" ++ check (runes_of_ascii "packet P1 {
     u8 a,
 }
@@ -736,112 +668,65 @@ root packet P5 {
     },
 }
 ")).
-Eval vm_compute in ("<<<M1313>>>" ++ check (runes_of_ascii "options	{ FixedStringPadChar
-=
-
-'0';  }packet
-Q
-{ zchar[4  ]
-
-z
-	, @rightPad  ('\x00'  )
-
-    char[ 
-3
-]
-n , char[
-    5 ]  d,
+Eval vm_compute in ("<<<M1505>>>" ++ check (runes_of_ascii "MetaData chars {
+    uint64 A,
+    msg_type asx,
+    Z9_ a1,
+    stringy i64_ `doc`,
 }
 
-    root
-packet
-R
+packet x_y_z {
+}
 
+options {
+    float = float32
+    rootA = false;
+    repeatCount = char[10];
+}
+
+packet Z9_ {
+    zchar[007] charz,
+}//x")).
+Eval vm_compute in ("<<<M92>>>" ++ check (runes_of_ascii "packet lengthOf { } root packet leftPad {  zchar[00// a // b
+]
+    Foo `` // c
+, @calculatedFrom( ""1"" )
+@leftPad (
+    ' '
+// trailing space 
+// " ++ [27880; 37322]%N ++ runes_of_ascii "
+)  @leftPad
+( ' ')
+repeat u8
+options1 , }")).
+Eval vm_compute in ("<<<M1583>>>" ++ check (runes_of_ascii "options {
+    As = true
+    MetaDataX = true
+}
+
+packet A {
+    repeat calculatedFrom `say ""hi""`,
+}
+
+MetaData crc {
+    u crc,
+    uint32 body,
+    i16 stringy `u8 x,`,
+}")).
+Eval vm_compute in ("<<<M187>>>" ++ check (runes_of_ascii "
+options// " ++ [27880; 37322]%N ++ runes_of_ascii "
 {
-
-    Q 
-, zchar[8 
-]top
-
-    ,	repeat zchar[	2
-]
-	zs
-
-    , 
-}")).
-Eval vm_compute in ("<<<M1833>>>" ++ check (runes_of_ascii "packet
-repeatCount
-
-{trueish
-, } packet uint8x
-{  /// triple
-	match	u8x
-    as  calculatedFrom	{
-
-[ 4294967296  ]
-    :	len,
-
-    [
-	""" ++ [128512]%N ++ runes_of_ascii """
-
-, """ ++ [233]%N ++ runes_of_ascii "t" ++ [233]%N ++ runes_of_ascii """ 
-,
-	255,  //
-      1  ] :falsey
-	,} 
-, }
+f32a= ""a\""b""//x
+; Z9_ = // " ++ [27880; 37322]%N ++ runes_of_ascii "
+""`tick`""	Logon
+    // " ++ [27880; 37322]%N ++ runes_of_ascii "
+    =""CRC32""u128= f64 ;rootA	=
+false ;} //	t
+packet lengthOf {
+} MetaData len { }
 ")).
-Eval vm_compute in ("<<<M1810>>>" ++ check (runes_of_ascii "
-
-  packet	A  {
-match
-    k as
-
-    n{[	1,	22
-    , ""c c"" , 4	,
-
-5
-	,
-""f""	,	7 ,  8
-    ,
-    ""i"",10
-
-    ,11	, 
-""l""] :
-B
-    ,  2
-    :  C
-
-    }
-,
-
-    }
-")).
-Eval vm_compute in ("<<<M250>>>" ++ check (runes_of_ascii "MetaData // a // b
-o {string Foo
-    , }
-MetaData  msg_type { Header len `" ++ [28040; 24687; 31867; 22411]%N ++ runes_of_ascii "`
-,
-    }
-options
-{ tag
-= '0' ;
-    o=
-""CRC32"" ; Logon = ""`tick`"" ;// a // b
-}")).
-Eval vm_compute in ("<<<M416>>>" ++ check (runes_of_ascii "packet uint8x
-{ match pack
-    as as msg_type	{
-    0123456789 :	float
-}
-,
-} packet //	t
-a1
-    { } options {packetx
-    = '\x00'	; u128= ""a	b""  ; }
-")).
-Eval vm_compute in ("<<<M544>>>" ++ check (runes_of_ascii "packet uint8x
-{ match pack
+Eval vm_compute in ("<<<M413>>>" ++ check (runes_of_ascii "packet uint8x
+{ match float32
     as msg_type	{
     0123456789 :	float
 }
@@ -849,246 +734,275 @@ Eval vm_compute in ("<<<M544>>>" ++ check (runes_of_ascii "packet uint8x
 } packet //	t
 a1
     { } options {packetx
-    = " ++ [65279]%N ++ runes_of_ascii " '\x00'	; u128= ""a	b""  ; }
-")).
-Eval vm_compute in ("<<<M437>>>" ++ check (runes_of_ascii "packet uint8x
-{ match pack
-    as msg_type	{
-    0123456789 float	:
-}
-,
-} packet //	t
-a1
-    { } options {packetx
     = '\x00'	; u128= ""a	b""  ; }
 ")).
-Eval vm_compute in ("<<<M470>>>" ++ check (runes_of_ascii "packet uint8x
-{ match pack
-    as msg_type	{
-    0123456789 :	float
-}
-,
-} packet //	t
-a1
-     } options {packetx
-    = '\x00'	; u128= ""a	b""  ; }
-")).
-Eval vm_compute in ("<<<M493>>>" ++ check (runes_of_ascii "packet uint8x
-{ match pack
-    as msg_type	{
-    0123456789 :	float
-}
-,
-} packet //	t
-a1
-    { } options {f64
-    = '\x00'	; u128= ""a	b""  ; }
-")).
-Eval vm_compute in ("<<<M657>>>" ++ check (runes_of_ascii "// @lengthOf(
+Eval vm_compute in ("<<<M672>>>" ++ check (runes_of_ascii "// @lengthOf(
 packet i8i8 { u128 o , }
 options { MetaDataX = true;
     BodyLength =""packet"" x_y_z= 007
-?crc //x
+crc //x
 = ""abc"" ;
     msg_type =
-i16 }")).
-Eval vm_compute in ("<<<M420>>>" ++ check (runes_of_ascii "packet uint8x
+@leftpad i16 }")).
+Eval vm_compute in ("<<<M452>>>" ++ check (runes_of_ascii "packet uint8x
 { match pack
-    as 	{
+    as msg_type	{
+    0123456789 :	float
+}
+}
+, packet //	t
+a1
+    { } options {packetx
+    = '\x00'	; u128= ""a	b""  ; }
+")).
+Eval vm_compute in ("<<<M485>>>" ++ check (runes_of_ascii "packet uint8x
+{ match pack
+    as msg_type	{
     0123456789 :	float
 }
 ,
 } packet //	t
 a1
-    { } options {packetx
+    { } options packetx
     = '\x00'	; u128= ""a	b""  ; }
 ")).
-Eval vm_compute in ("<<<M1919>>>" ++ check (runes_of_ascii "
-
-  packet
-
-    // " ++ [128512]%N ++ runes_of_ascii " emoji
-
-body
-
-{
-match
-    Logon
-    as
-_x{ 
-4294967296 
-	    // a // b
-		//x
-  :
-    _x
-	,  """ ++ [28040; 24687]%N ++ runes_of_ascii """ :
-	u128,
-} ,}
-")).
-Eval vm_compute in ("<<<M1296>>>" ++ check (runes_of_ascii "packet A {
-    u8 a,
-}
-packet B {
-    u16 b,
-}
-root packet P {
-    u8 K,
-    match K as M {
-        1 : A,
-        1 : B,
-    },
-}
-")).
-Eval vm_compute in ("<<<M1731>>>" ++ check (runes_of_ascii "packet B {
+Eval vm_compute in ("<<<M1418>>>" ++ check (runes_of_ascii "// top
+packet Inner {
+    // c2a
+    // c2b
     u8 a,
 }
 
+// c6
 root packet P {
-    u8 K,
-    u64 L @lengthOf(Body),
-    match K as Body {
-        1 : B,
-    },
-}")).
-Eval vm_compute in ("<<<M1156>>>" ++ check (runes_of_ascii "MetaData leftPad { chars MetaDataX , }
-// c
-packet repeatCount { char[ 255 ] uint8x `" ++ [233]%N ++ runes_of_ascii "` , } MetaData pack { As Foo , }")).
-Eval vm_compute in ("<<<M1188>>>" ++ check (runes_of_ascii "MetaData leftPad { chars MetaDataX , } packet repeatCount { char[ 255 ] uint8x `" ++ [233]%N ++ runes_of_ascii "` , } MetaData pack { As Foo ,
-// c
-}")).
-Eval vm_compute in ("<<<M925>>>" ++ check (runes_of_ascii "packet A {
-    u16 len @lengthOf(body) `a
-b`,
-    u32 crc @calculatedFrom(""CRC32"") `a
-b`,
-    string body,
-}")).
-Eval vm_compute in ("<<<M931>>>" ++ check (runes_of_ascii "packet A {
-    u16 len @lengthOf(body) `
-`,
-    u32 crc @calculatedFrom(""CRC32"") `
-`,
-    string body,
-}")).
-Eval vm_compute in ("<<<M1248>>>" ++ check (runes_of_ascii "  options
-{LittleEndian 
-= true 
-; }
-
-    root  packet
-
-P {
-
-    repeat
-char
-cs
-
-, u8
-	x, }
-
-")).
-Eval vm_compute in ("<<<M871>>>" ++ check (runes_of_ascii "packet A {
-  match k as n {
-    [""a"", 22, ""c c"", 4, ""e"", 66, ""g"", 8, ""i""] : B,
-    2 : C
-  },
-}")).
-Eval vm_compute in ("<<<M226>>>" ++ check (runes_of_ascii "// a // b
-packet Pad {
-    char[] // packet A { u8 x, }
-Z9_ @lengthOf( Pad
-) `{ , }` , } 	 ")).
-Eval vm_compute in ("<<<M873>>>" ++ check (runes_of_ascii "packet A {
-  match k as n {
-    [1, 22, ""c c"", 4, 5, ""f"", 7, 8, ""i""] : B,
-    2 : C
-  },
-}")).
-Eval vm_compute in ("<<<M850>>>" ++ check (runes_of_ascii "packet A {
-  match k as n {
-    [""a"", ""bb"", 007, ""d"", ""e"", 66, ""g""] : B
-    2 : C
-  },
-}")).
-Eval vm_compute in ("<<<M1246>>>" ++ check (runes_of_ascii "options {
-    LittleEndian = true;
-}
-root packet P {
-    repeat char cs,
+    // c10
+    Inner ref_obj,// c13a
+    // c13b
     u8 x,
+}// c17a")).
+Eval vm_compute in ("<<<M1684>>>" ++ check (runes_of_ascii "packet A {
+    match k as n {
+        [
+            ""a"", ""bb"", ""c c"", ""d"", ""e"",
+            ""f"", ""g"", ""h""
+        ] : B,
+        2 : C,
+    },
+}")).
+Eval vm_compute in ("<<<M1622>>>" ++ check (runes_of_ascii "packet
+A{	match
+
+    k as n { [1
+,
+22	,  ""c c""
+, 4, 5  ,
+
+""f""	,
+7	,
+
+    8 , 
+""i""
+
+    , 10
+,  11
+
+    ,""l""
+] :B
+2
+    :
+C  }
+	, }")).
+Eval vm_compute in ("<<<M714>>>" ++ check (runes_of_ascii "// @lengthOf(
+packet i8i8 { u128 o , }
+options { MetaDataX = true;
+    BodyLength =""packet"" x_y_z= 007
+crc //x
+= ""abc"" ;
+    msg_type")).
+Eval vm_compute in ("<<<M1822>>>" ++ check (runes_of_ascii "packet Logon {
+    repeatCount @lengthOf(roots),
+    @tag(0)
+    repeat zchar[007] crc,
+    rootA a1 `{ , }`,
+    string_ `" ++ [233]%N ++ runes_of_ascii "`,
+}")).
+Eval vm_compute in ("<<<M1845>>>" ++ check (runes_of_ascii "MetaData Packet {
+    u lengthOf `say ""hi""`,
 }
+
+MetaData metadata {
+    crc chars `crlf
+        line`,
+    asx f32a,
+}")).
+Eval vm_compute in ("<<<M1172>>>" ++ check (runes_of_ascii "MetaData leftPad { chars MetaDataX , } packet repeatCount { char[ 255 ] uint8x `" ++ [233]%N ++ runes_of_ascii "`
+// c
+, } MetaData pack { As Foo , }")).
+Eval vm_compute in ("<<<M1319>>>" ++ check (runes_of_ascii "
+packet FooBar  {  u8
+	a , }
+    packet  foo_bar
+
+    {  u16 
+b
+
+    , } root
+	packet R{FooBar , foo_bar
+,	}
 ")).
-Eval vm_compute in ("<<<M816>>>" ++ check (runes_of_ascii "packet A {
-  match k as n {
-    [""a"", ""bb"", ""c c"", ""d"", ""e""] : B
-    2 : C
-  },
+Eval vm_compute in ("<<<M489>>>" ++ check (runes_of_ascii "packet uint8x
+{ match pack
+    as msg_type	{
+    0123456789 :	float
+}
+,
+} packet //	t
+a1
+    { } options")).
+Eval vm_compute in ("<<<M926>>>" ++ check (runes_of_ascii "packet A {
+    Inner {
+        u8 x `a
+b`,
+        Deep {
+            u8 y `a
+b`,
+        },
+    },
 }")).
-Eval vm_compute in ("<<<M269>>>" ++ check (runes_of_ascii "options
-{ Z9_ ='\x00'  } packet trueish
-{ // " ++ [128512]%N ++ runes_of_ascii " emoji
-u16 calculatedFrom
-, }")).
-Eval vm_compute in ("<<<M1863>>>" ++ check (runes_of_ascii "options {
-    lengthOf = 3
-    trueish = true;
-    calculatedFrom = 007;
-}")).
-Eval vm_compute in ("<<<M794>>>" ++ check (runes_of_ascii "packet A {
-  match k as n {
-    [""a"", 22, ""c c""] : B
-    2 : C
-  },
-}")).
-Eval vm_compute in ("<<<M628>>>" ++ check (runes_of_ascii "
+Eval vm_compute in ("<<<M1925>>>" ++ check (runes_of_ascii "// top
+root packet P {
+    // c3a
+    // c3b
+    repeat string ss,// c7
+    repeat u16 ns,
+}// c12a")).
+Eval vm_compute in ("<<<M605>>>" ++ check (runes_of_ascii "
 packet
     asx {match u128 as lengthOf
 {
 //	t
-// `tick` ""quote""")).
-Eval vm_compute in ("<<<M204>>>" ++ check (runes_of_ascii "  options {// " ++ [128512]%N ++ runes_of_ascii " emoji
-Packet =// `tick` ""quote"" 'q'
-char[3 ]}")).
-Eval vm_compute in ("<<<M773>>>" ++ check (runes_of_ascii "packet A {
+// `tick` ""quote"" 'q'
+255 : repeat ,
+    } ,	}")).
+Eval vm_compute in ("<<<M563>>>" ++ check (runes_of_ascii "
+packet
+    asx { {match u128 as lengthOf
+{
+//	t
+// `tick` ""quote"" 'q'
+255 : x ,
+    } ,	}")).
+Eval vm_compute in ("<<<M564>>>" ++ check (runes_of_ascii "
+packet
+    asx match{ u128 as lengthOf
+{
+//	t
+// `tick` ""quote"" 'q'
+255 : x ,
+    } ,	}")).
+Eval vm_compute in ("<<<M1480>>>" ++ check (runes_of_ascii "packet
+
+    A {
+match
+    k  as
+	n
+	{ [  1
+,
+
+    22 , ""c c"" ]	:B 2
+
+: C}
+
+,
+    }
+")).
+Eval vm_compute in ("<<<M390>>>" ++ check (runes_of_ascii "root packet SimpleMessage {
+	uint16 MsgType `" ++ [28040; 24687; 31867; 22411]%N ++ runes_of_ascii "`,
+	string JsonBody `Json" ++ [23383; 31526; 20018; 28040; 24687; 20307]%N ++ runes_of_ascii "`,
+}")).
+Eval vm_compute in ("<<<M833>>>" ++ check (runes_of_ascii "packet A {
   match k as n {
-    [1] : B,
+    [""a"", 22, ""c c"", 4, ""e"", 66] : B
     2 : C
   },
 }")).
-Eval vm_compute in ("<<<M1197>>>" ++ check (runes_of_ascii "// c
-packet body { i32 f32a `{ , }` , } options { }")).
-Eval vm_compute in ("<<<M1715>>>" ++ check (runes_of_ascii "  options
-{
-Logon	=""" ++ [28040; 24687]%N ++ runes_of_ascii """;
-	BodyLength= false  ;}
+Eval vm_compute in ("<<<M820>>>" ++ check (runes_of_ascii "packet A {
+  match k as n {
+    [""a"", 22, ""c c"", 4, ""e""] : B
+    2 : C
+  },
+}")).
+Eval vm_compute in ("<<<M804>>>" ++ check (runes_of_ascii "packet A {
+  match k as n {
+    [1, ""bb"", 007, ""d""] : B,
+    2 : C
+  },
+}")).
+Eval vm_compute in ("<<<M108>>>" ++ check (runes_of_ascii "packet int {}
+options {leftPad ='0' ;metadata= char[] Foo=
+'0' ; }
 ")).
-Eval vm_compute in ("<<<M47>>>" ++ check (runes_of_ascii "MetaData	lengthOf
-{
-Header o `doc`
-    ,}
+Eval vm_compute in ("<<<M1568>>>" ++ check (runes_of_ascii "
+options 
+{len
+
+    =// " ++ [128512]%N ++ runes_of_ascii " emoji
+      ""packet""int 
+=  ""abc"" } ")).
+Eval vm_compute in ("<<<M939>>>" ++ check (runes_of_ascii "MetaData M {
+    u8 x `a
+    b
+  c`,
+    T t `a
+    b
+  c`,
+}")).
+Eval vm_compute in ("<<<M27>>>" ++ check (runes_of_ascii "options{Logon = """ ++ [28040; 24687]%N ++ runes_of_ascii """
+    ; BodyLength =
+    false
+; }
 ")).
-Eval vm_compute in ("<<<M1762>>>" ++ check (runes_of_ascii "root packet A {
+Eval vm_compute in ("<<<M1206>>>" ++ check (runes_of_ascii "packet body { i32
+// c
+f32a `{ , }` , } options { }")).
+Eval vm_compute in ("<<<M927>>>" ++ check (runes_of_ascii "MetaData M {
+    u8 x `a
+b`,
+    T t `a
+b`,
+}")).
+Eval vm_compute in ("<<<M1893>>>" ++ check (runes_of_ascii "root packet A {
+    u8 x `a
+    
+    b`,
+}")).
+Eval vm_compute in ("<<<M1672>>>" ++ check (runes_of_ascii "root packet A {
+    u8 x `a
+    b`,
+}")).
+Eval vm_compute in ("<<<M958>>>" ++ check (runes_of_ascii "root packet A {
     u8 x `
-        `,
+x`,
 }")).
-Eval vm_compute in ("<<<M1598>>>" ++ check (runes_of_ascii "options {
-    Foo = 0123456789;
+Eval vm_compute in ("<<<M1023>>>" ++ check (runes_of_ascii "packet A {
+ u8 x `d" ++ [8239]%N ++ runes_of_ascii "`, // c" ++ [8239]%N ++ runes_of_ascii "
 }")).
-Eval vm_compute in ("<<<M998>>>" ++ check (runes_of_ascii "packet A {
- u8 x `d" ++ [5760]%N ++ runes_of_ascii "`, // c" ++ [5760]%N ++ runes_of_ascii "
-}")).
-Eval vm_compute in ("<<<M419>>>" ++ check (runes_of_ascii "packet uint8x
-{ match pack")).
-Eval vm_compute in ("<<<M1884>>>" ++ check (runes_of_ascii "  packet
-    A{ } // c" ++ [160]%N)).
-Eval vm_compute in ("<<<M20>>>" ++ check (runes_of_ascii "packet MetaDataX { }")).
-Eval vm_compute in ("<<<M981>>>" ++ check (runes_of_ascii "packet A {
-}
-// c" ++ [12288]%N)).
-Eval vm_compute in ("<<<M1074>>>" ++ check (runes_of_ascii "MetaData M {
+Eval vm_compute in ("<<<M1545>>>" ++ check (runes_of_ascii "MetaData	u
+    {// c
+    }")).
+Eval vm_compute in ("<<<M1407>>>" ++ check (runes_of_ascii "
+
+  packet
+	x { }	// c")).
+Eval vm_compute in ("<<<M1667>>>" ++ check (runes_of_ascii "MetaData tag {
 }// c")).
-Eval vm_compute in ("<<<M1228>>>" ++ check (runes_of_ascii "packet x // c
-{ }")).
-Eval vm_compute in ("<<<M1454>>>" ++ check (runes_of_ascii "packet A {
+Eval vm_compute in ("<<<M997>>>" ++ check (runes_of_ascii "// c" ++ [5760]%N ++ runes_of_ascii "
+packet A {
 }")).
+Eval vm_compute in ("<<<M1829>>>" ++ check (runes_of_ascii "packet i64_
+{ 
+}
+")).
+Eval vm_compute in ("<<<M356>>>" ++ check (runes_of_ascii "packet uint8x {}")).
+Eval vm_compute in ("<<<M749>>>" ++ check ([1; 65533]%N ++ runes_of_ascii ">&EQX" ++ [65533]%N ++ runes_of_ascii "P" ++ [65533; 65533]%N)).
 Eval vm_compute in ("<<<M1055>>>" ++ check (runes_of_ascii "// c" ++ [6158]%N)).
